@@ -252,12 +252,37 @@ func (v *FnV) sliceExpr(st *State, x *ast.SliceExpr) Value {
 		v.safety(st, "slice", x, sAnd(sLe("0", los), sLe(los, his), sLe(his, mxs), sLe(mxs, c)), "slice bounds in range")
 		return Value{T: rt, S: fmt.Sprintf("(mkslice (sref %s) %s %s %s)", base.S, sAdd(sx("sloff", base.S), los), sSub(his, los), sSub(mxs, los))}
 	case *types.Array:
-		_ = u
+		// a boxed local array: its cell is the backing store
+		if id, ok := unparen(x.X).(*ast.Ident); ok {
+			if obj := v.info().Uses[id]; obj != nil && v.boxed[obj] {
+				if cell, ok := st.env[obj]; ok {
+					return v.sliceOfArrayCell(st, x, rt, cell.S, u.Len(), los, hi, mx)
+				}
+			}
+		}
 		v.abstract(x, "slicing an array value")
 	case *types.Pointer:
+		if at, ok := u.Elem().Underlying().(*types.Array); ok {
+			v.nilCheck(st, x, base)
+			return v.sliceOfArrayCell(st, x, rt, base.S, at.Len(), los, hi, mx)
+		}
 		v.abstract(x, "slicing through array pointer")
 	}
 	return v.havoc(st, "slice", rt)
+}
+
+// sliceOfArrayCell: a[lo:hi:max] for an array stored at cell ref (length n).
+func (v *FnV) sliceOfArrayCell(st *State, x *ast.SliceExpr, rt types.Type, ref string, n int64, los string, hi, mx *Value) Value {
+	ns := fmt.Sprint(n)
+	his, mxs := ns, ns
+	if hi != nil {
+		his = hi.S
+	}
+	if mx != nil {
+		mxs = mx.S
+	}
+	v.safety(st, "slice", x, sAnd(sLe("0", los), sLe(los, his), sLe(his, mxs), sLe(mxs, ns)), "array slice bounds in range")
+	return Value{T: rt, S: fmt.Sprintf("(mkslice %s %s %s %s)", ref, los, sSub(his, los), sSub(mxs, los))}
 }
 
 func (v *FnV) unary(st *State, x *ast.UnaryExpr) Value {
@@ -918,6 +943,7 @@ func (v *FnV) mapStore(st *State, mt *types.Map, m Value, k Value, val Value) {
 	if !ok {
 		return
 	}
+	v.writeCheck(st, m.S, "map store")
 	st.setHeap(pn, sStore(ph, m.S, sStore(sSelect(ph, m.S), k.S, "true")))
 	st.setHeap(vn, sStore(vh, m.S, sStore(sSelect(vh, m.S), k.S, val.S)))
 }
@@ -927,5 +953,6 @@ func (v *FnV) mapDelete(st *State, mt *types.Map, m Value, k Value) {
 	if !ok {
 		return
 	}
+	v.writeCheck(st, m.S, "map delete")
 	st.setHeap(pn, sStore(ph, m.S, sStore(sSelect(ph, m.S), k.S, "false")))
 }
